@@ -142,10 +142,15 @@ pub fn parse(buf: &[u8], is_response: bool, eof: bool, head_request: bool) -> Pa
             };
             let line = &buf[pos..pos + eol];
             let size_part = line.split(|b| *b == b';').next().unwrap_or(line);
-            if size_part.is_empty() || !size_part.iter().all(|b| b.is_ascii_hexdigit()) || size_part.len() > 15 {
+            if size_part.is_empty() || !size_part.iter().all(|b| b.is_ascii_hexdigit()) {
                 return Parse::Invalid(format!("bad chunk size line {:?}", String::from_utf8_lossy(line)));
             }
-            let size = usize::from_str_radix(std::str::from_utf8(size_part).unwrap(), 16).unwrap();
+            let digits = std::str::from_utf8(size_part).unwrap().trim_start_matches('0');
+            if digits.len() > 15 {
+                // a syntactically valid but astronomically large chunk: never complete here
+                return if eof { Parse::Invalid("connection closed inside a chunk".into()) } else { Parse::Incomplete };
+            }
+            let size = if digits.is_empty() { 0 } else { usize::from_str_radix(digits, 16).unwrap() };
             pos += eol + 2;
             if size == 0 {
                 // trailers until empty line
@@ -184,10 +189,14 @@ pub fn parse(buf: &[u8], is_response: bool, eof: bool, head_request: bool) -> Pa
     if !cl.is_empty() {
         let mut values: Vec<&str> = cl.iter().flat_map(|v| v.split(',')).map(|s| s.trim()).collect();
         values.dedup();
-        if values.len() != 1 || values[0].is_empty() || !values[0].bytes().all(|b| b.is_ascii_digit()) || values[0].len() > 15 {
+        if values.len() != 1 || values[0].is_empty() || !values[0].bytes().all(|b| b.is_ascii_digit()) {
             return Parse::Invalid(format!("invalid or conflicting Content-Length {cl:?}"));
         }
-        let n: usize = values[0].parse().unwrap();
+        let digits = values[0].trim_start_matches('0');
+        if digits.len() > 15 {
+            return if eof { Parse::Invalid("connection closed inside an astronomically long body".into()) } else { Parse::Incomplete };
+        }
+        let n: usize = if digits.is_empty() { 0 } else { digits.parse().unwrap() };
         msg.framing = Framing::ContentLength(n);
         if bodyless {
             return Parse::Complete(msg);
@@ -210,6 +219,67 @@ pub fn parse(buf: &[u8], is_response: bool, eof: bool, head_request: bool) -> Pa
         return Parse::Complete(msg);
     }
     Parse::Complete(msg)
+}
+
+/// The canonical reading a forwarding intermediary must produce (RFC 9112 §6.3,
+/// RFC 9110 §8.6): on top of `parse`, exactly one framing header in its simplest
+/// spelling, exactly one Host on HTTP/1.1, an HTTP/1.0 or 1.1 version, no control
+/// bytes in values, no whitespace or control bytes in the target. Anything else
+/// is "not unambiguous" for the purposes of C03.
+pub fn parse_canonical(buf: &[u8], eof: bool) -> Parse {
+    let m = match parse(buf, false, eof, false) {
+        Parse::Complete(m) => m,
+        other => return other,
+    };
+    let parts: Vec<&str> = m.start_line.split(' ').collect();
+    if parts[2] != "HTTP/1.1" && parts[2] != "HTTP/1.0" {
+        return Parse::Invalid(format!("version {:?}", parts[2]));
+    }
+    if parts[1].bytes().any(|b| b <= 0x20 || b == 0x7f) || m.start_line.bytes().any(|b| b < 0x20 || b == 0x7f) {
+        return Parse::Invalid("control byte or whitespace in request target".into());
+    }
+    let cl = m.headers_named("content-length");
+    let te = m.headers_named("transfer-encoding");
+    if cl.len() > 1 || cl.iter().any(|v| v.is_empty() || !v.bytes().all(|b| b.is_ascii_digit())) {
+        return Parse::Invalid(format!("non-canonical Content-Length {cl:?}"));
+    }
+    // a list of plain tokens (no parameters, no empty elements) whose last and
+    // only "chunked" closes it; several field lines combine in order
+    let codings: Vec<String> = te.iter().flat_map(|v| v.split(',')).map(|c| c.trim_matches(|c| c == ' ' || c == '\t').to_ascii_lowercase()).collect();
+    if codings.iter().any(|c| c.is_empty() || !c.bytes().all(is_tchar)) {
+        return Parse::Invalid(format!("non-canonical Transfer-Encoding {te:?}"));
+    }
+    if !te.is_empty() && parts[2] == "HTTP/1.0" {
+        return Parse::Invalid("Transfer-Encoding on HTTP/1.0".into());
+    }
+    let hosts = m.headers_named("host");
+    if parts[2] == "HTTP/1.1" && hosts.len() != 1 {
+        return Parse::Invalid(format!("{} Host fields", hosts.len()));
+    }
+    for (n, v) in m.headers.iter().chain(m.trailers.iter()) {
+        if v.bytes().any(|b| (b < 0x20 && b != b'\t') || b == 0x7f) {
+            return Parse::Invalid(format!("control byte in the value of {n}"));
+        }
+    }
+    Parse::Complete(m)
+}
+
+pub fn parse_all_canonical(buf: &[u8], eof: bool) -> (Vec<Message>, usize, Option<String>) {
+    let mut out = vec![];
+    let mut pos = 0;
+    loop {
+        if pos >= buf.len() {
+            return (out, pos, None);
+        }
+        match parse_canonical(&buf[pos..], eof) {
+            Parse::Complete(m) => {
+                pos += m.wire_len;
+                out.push(m);
+            }
+            Parse::Incomplete => return (out, pos, None),
+            Parse::Invalid(e) => return (out, pos, Some(e)),
+        }
+    }
 }
 
 /// Parse as many complete messages as possible; returns them with the number
